@@ -149,6 +149,67 @@ def _ob_open(vx: int, vy: int, vz: int, vlen: int, fmt: int, idk: int, groups: b
 
 
 # ---------------------------------------------------------------------------
+# 1b. an existing path that is not an HDF5 file (size symbolic, 0 included)   PART = mode
+# ---------------------------------------------------------------------------
+def _ob_not_hdf5(size: int) -> bool:
+    """
+    pre: size >= 0
+    post: __return__
+    """
+    import nixio
+    mode = PART
+    nixfake.begin()
+    blob = fakeh5.NotHDF5(size)
+    fakeh5.FS[PATH] = blob
+    if mode == "a":
+        assume(size > 0)         # whether an EMPTY existing file counts as missing in read-write mode is left open
+    try:
+        f = nixio.File(PATH, mode)
+        opened = True
+    except Exception:  # noqa
+        opened = False
+    if mode == "w":
+        return opened and fakeh5.FS[PATH] is not blob and len(f.blocks) == 0 and f.format == "nix"
+    # read-only never changes the bytes; read-write creates only what is missing
+    if opened:
+        return False
+    if fakeh5.FS.get(PATH) is not blob:
+        return False
+    return not any(op == "create" for op, _, _ in fakeh5.OPEN_LOG)
+
+
+def _replay_not_hdf5(args):
+    import os
+    import shutil
+    import tempfile
+    import nixio
+    nixfake.uninstall()
+    mode = PART
+    size = args["size"]
+    if size > 1 << 20:
+        return None, {"skipped": "file too large for the replay"}
+    tmp = tempfile.mkdtemp(prefix="vf_c11_")
+    try:
+        p = os.path.join(tmp, "x.nix")
+        content = (b"not hdf5 " * (size // 9 + 1))[:size]
+        with open(p, "wb") as fh:
+            fh.write(content)
+        try:
+            f = nixio.File(p, mode)
+            opened = True
+            nblocks = len(f.blocks)
+            f.close()
+        except Exception:  # noqa
+            opened = False
+        after = open(p, "rb").read()
+        if mode == "w":
+            return (not opened) or nblocks != 0, {"opened": opened}
+        return opened or after != content, {"opened": opened, "bytes_unchanged": after == content}
+    finally:
+        shutil.rmtree(tmp, ignore_errors=True)
+
+
+# ---------------------------------------------------------------------------
 # 2. can_read / can_write in isolation (unbounded triples, wrong lengths)
 # ---------------------------------------------------------------------------
 class _V:
@@ -445,6 +506,10 @@ OBLIGATIONS = [
        replay=_replay_open,
        outside="libhdf5's enforcement of ACC_RDONLY and byte-level content (trusted; the flag "
                "handed to the backend is asserted)"),
+    Ob("existing_file_that_is_not_hdf5", _ob_not_hdf5, timeout=120, partition=["r", "a", "w"],
+       functions=[_F + "File.__init__"], replay=_replay_not_hdf5,
+       outside="the file is any regular non-HDF5 file of size >= 0 (read-only, overwrite) / > 0 (read-write); "
+               "that libhdf5 refuses such a file is the backend's behaviour"),
     Ob("can_read_can_write", _ob_can, timeout=120, functions=[_F + "can_read", _F + "can_write"]),
     Ob("readonly_reads_agree", _ob_readonly_reads, timeout=600, partition=_KINDS,
        functions=[_F + "File.__init__"],
